@@ -462,6 +462,14 @@ fn hist_case<R: Scal>(s: &mut Sink, r: &mut Rng, max_len: usize) where for<'x> &
     s.case(&format!("hist {} {} {}", tag, init_txt, steps.join(" ")).trim_end(), &replies.join(";"), steps.len() >= 2);
 }
 
+/// `KNOWN?` records (a panic on an intermediate overflow although the exact result is representable; never a wrong
+/// value) are limited to a handful per run; the rest is only counted.
+static KNOWN_LEFT: std::sync::atomic::AtomicI64 = std::sync::atomic::AtomicI64::new(6);
+fn known(s: &mut Sink, clause: &str, input: &str, detail: &str) {
+    if KNOWN_LEFT.fetch_sub(1, std::sync::atomic::Ordering::SeqCst) > 0 { s.oracle(false, clause, input, detail); }
+    else { s.count("nearlimit.known-suppressed"); }
+}
+
 /// single operations on operands near the limits of the machine type
 fn near_limit_case<R: Scal>(s: &mut Sink, r: &mut Rng) where for<'x> &'x R: EucRingOps<R> {
     let tag = R::tag();
@@ -475,7 +483,7 @@ fn near_limit_case<R: Scal>(s: &mut Sink, r: &mut Rng) where for<'x> &'x R: EucR
             Some(v) => { check_val(s, "constructed value", &v, &m, &req); s.case(&req, &v.txt(), true); operands.push((v, m)); }
             None => {
                 s.count("nearlimit.ctor-panic");
-                s.oracle(!R::m_fits(&m), &format!("KNOWN? {}: constructor panics (intermediate overflow) although the value is representable", tag), &req, &R::m_txt(&m));
+                if R::m_fits(&m) { known(s, &format!("KNOWN? {}: constructor panics (intermediate overflow) although the value is representable", tag), &req, &R::m_txt(&m)); }
                 return;
             }
         }
@@ -493,7 +501,7 @@ fn near_limit_case<R: Scal>(s: &mut Sink, r: &mut Rng) where for<'x> &'x R: EucR
             (None, Some(e)) => {
                 if R::m_fits(&e) {
                     s.count("nearlimit.panic-representable");
-                    s.oracle(false, &format!("KNOWN? {} {}: panics (intermediate overflow) although the exact result is representable", tag, op.name()), &req, &R::m_txt(&e));
+                    known(s, &format!("KNOWN? {} {}: panics (intermediate overflow) although the exact result is representable", tag, op.name()), &req, &R::m_txt(&e));
                 } else { s.count("nearlimit.panic-unrepresentable"); }
             }
             (None, None) => { s.case(&req, "panic", true); }
@@ -504,7 +512,7 @@ fn near_limit_case<R: Scal>(s: &mut Sink, r: &mut Rng) where for<'x> &'x R: EucR
     match apply_neg(s, &a, &req) {
         Some(v) => { check_val(s, "-a", &v, &e, &req); s.case(&req, &v.txt(), true); }
         None => if R::m_fits(&e) {
-            s.oracle(false, &format!("KNOWN? {} neg: panics (intermediate overflow) although the exact result is representable", tag), &req, &R::m_txt(&e));
+            known(s, &format!("KNOWN? {} neg: panics (intermediate overflow) although the exact result is representable", tag), &req, &R::m_txt(&e));
         }
     }
     if let Some(c) = guard(|| R::real_cmp(&a, &b)) {
@@ -516,7 +524,7 @@ fn near_limit_case<R: Scal>(s: &mut Sink, r: &mut Rng) where for<'x> &'x R: EucR
             s.case(&req, ord_str(c), true);
         }
     } else {
-        s.oracle(false, &format!("KNOWN? {} cmp: panics", tag), &format!("op {} cmp {} {}", tag, at, bt), "");
+        s.oracle(false, "cmp panicked", &format!("op {} cmp {} {}", tag, at, bt), "");
     }
 }
 
